@@ -70,13 +70,14 @@ def apply_edit(text, edit):
     raise AssertionError(op)
 
 
-def mutate_some(valid, percent=35):
+def mutate_some(valid, percent=40):
     """valid: strategy of dicts with 'text', 'expect', 'labels'.  A share of the values goes
     through one single-character edit; those carry mutated=True and no expectation (the edit may
     or may not leave the grammar)."""
 
-    def pick(v, roll, edit):
-        if roll < percent:
+    def pick(roll, v, edit):
+        # (roll drawn first and "high = mutate": Hypothesis often zero-fills the tail of an example)
+        if roll >= 100 - percent:
             text = apply_edit(v['text'], edit)
             if text != v['text']:
                 out = dict(v)
@@ -86,7 +87,7 @@ def mutate_some(valid, percent=35):
         out['mutated'] = False
         return out
 
-    return st.builds(pick, valid, st.sampled_from(list(range(0, 100, 5))), edits)
+    return st.builds(pick, st.sampled_from(list(range(0, 100, 5))), valid, edits)
 
 
 def ows():
@@ -405,7 +406,8 @@ def cookie_values():
         else:
             lb.add('cookie:strict_rfc6265_separators')
         lb.add('cookie:n=%d' % min(len(pairs), 3))
-        return {'text': text, 'expect': {'names': order, 'values': values}, 'labels': sorted(lb)}
+        # (a list of pairs, not a dict keyed by generated names: plain-data cases travel through JSON)
+        return {'text': text, 'expect': [[n, values[n]] for n in order], 'labels': sorted(lb)}
 
     eq_strict = st.just(['', ''])
     eq_len = st.sampled_from([['', ''], [' ', ''], ['', ' '], [' ', ' '], ['\t', '']])
